@@ -1103,10 +1103,10 @@ def r36_for_chars(src, item, ed, opts):
             ed.insert(n["body"][0] + 1, f" let Some({pat}) = {it}.next() else {{ break; }}; {k} += 1; ", "R36", prio=-5)
             ed.count("R36")
             continue
-        m = re.fullmatch(r"(.+)\.chars\(\)", ex, re.S)
+        m = re.fullmatch(r"(.+)\.(chars|lines)\(\)", ex, re.S)
         if not m or n["loop_kind"] != "for":
-            raise Unsupported(f"R36 expects `for c in S.chars()`, found `{ex}`")
-        ed.replace(n["range"][0], n["body"][0], f"let mut {it} = vx_chars({m.group(1).strip()}); {sp.get('ghost_after_let', '')} while let Some({pat}) = {it}.next() ", "R36")
+            raise Unsupported(f"R36 expects `for c in S.chars()` / `for l in S.lines()`, found `{ex}`")
+        ed.replace(n["range"][0], n["body"][0], f"let mut {it} = vx_{m.group(2)}({m.group(1).strip()}); {sp.get('ghost_after_let', '')} while let Some({pat}) = {it}.next() ", "R36")
         ed.count("R36")
 
 
